@@ -328,6 +328,19 @@ def check_ranges(
                 raise ValueError("Value of target fit range is wrong")
 
 
+def _bounds(data: slice, size: int) -> tuple[int, int]:
+    """Get the 'start' and 'stop' of a slice, an absent value stands for the end of the axis."""
+    start: int = 0 if data.start is None else data.start
+    stop: int = size if data.stop is None else data.stop
+    return start, stop
+
+
+def _length(data: slice, size: int) -> int:
+    """Get the number of elements selected by a slice."""
+    start, stop = _bounds(data, size)
+    return stop - start
+
+
 @dataclass(frozen=True)
 class FitRange2D:
     """Represent a 2D range or slice with a row range and a column range.
@@ -373,10 +386,13 @@ class FitRange2D:
         return self.row, self.col
 
     def check(self, rows: int, cols: int):
-        if not self.row.stop <= rows:
+        row_start, row_stop = _bounds(self.row, rows)
+        col_start, col_stop = _bounds(self.col, cols)
+
+        if not 0 <= row_start <= row_stop <= rows:
             raise ValueError("Value of target fit range is wrong")
 
-        if not self.col.stop <= cols:
+        if not 0 <= col_start <= col_stop <= cols:
             raise ValueError("Value of target fit range is wrong")
 
 
@@ -437,16 +453,21 @@ class FitRange3D:
         return self.time, self.row, self.col
 
     def check(self, rows: int, cols: int, readout_times: int | None = None):
-        if not self.row.stop <= rows:
+        row_start, row_stop = _bounds(self.row, rows)
+        col_start, col_stop = _bounds(self.col, cols)
+
+        if not 0 <= row_start <= row_stop <= rows:
             raise ValueError("Value of target fit range is wrong")
 
-        if not self.col.stop <= cols:
+        if not 0 <= col_start <= col_stop <= cols:
             raise ValueError("Value of target fit range is wrong")
 
         if readout_times is None:
             raise ValueError("Target data is not a 3 dimensional array")
 
-        if not self.time.stop <= readout_times:
+        time_start, time_stop = _bounds(self.time, readout_times)
+
+        if not 0 <= time_start <= time_stop <= readout_times:
             raise ValueError("Value of target fit range is wrong")
 
 
@@ -469,20 +490,24 @@ def to_fit_range(
 def _check_out_fit_ranges(
     target_fit_range: FitRange2D | FitRange3D,
     out_fit_range: FitRange2D | FitRange3D,
+    rows: int,
+    cols: int,
+    readout_times: int | None = None,
 ):
     if (
         isinstance(target_fit_range, FitRange3D)
         and isinstance(out_fit_range, FitRange3D)
-        and target_fit_range.time.stop != out_fit_range.time.stop
+        and _length(target_fit_range.time, readout_times)
+        != _length(out_fit_range.time, readout_times)
     ):
         raise ValueError(
             "Fitting ranges have different lengths in dimension 'readout time'"
         )
 
-    if target_fit_range.row.stop != out_fit_range.row.stop:
+    if _length(target_fit_range.row, rows) != _length(out_fit_range.row, rows):
         raise ValueError("Fitting ranges have different lengths in dimension 'y'")
 
-    if target_fit_range.col.stop != out_fit_range.col.stop:
+    if _length(target_fit_range.col, cols) != _length(out_fit_range.col, cols):
         raise ValueError("Fitting ranges have different lengths in dimension 'x'")
 
 
@@ -521,12 +546,16 @@ def check_fit_ranges(
     if not target_fit_range:
         return
 
-    if out_fit_range:
-        _check_out_fit_ranges(
-            target_fit_range=target_fit_range, out_fit_range=out_fit_range
-        )
-
     if isinstance(target_fit_range, FitRange2D):
         target_fit_range.check(rows=rows, cols=cols)
     else:
         target_fit_range.check(rows=rows, cols=cols, readout_times=readout_times)
+
+    if out_fit_range:
+        _check_out_fit_ranges(
+            target_fit_range=target_fit_range,
+            out_fit_range=out_fit_range,
+            rows=rows,
+            cols=cols,
+            readout_times=readout_times,
+        )
